@@ -93,7 +93,7 @@ pub open spec fn read_text(s: Seq<char>) -> Option<Seq<Seq<FieldV>>> {
 }
 
 // ---- views of the exec data ------------------------------------------------------------------------
-pub open spec fn fields_view(fs: Seq<lossy::Field>) -> Seq<FieldV> { fs.map_values(|f: lossy::Field| (f.name@, f.value@)) }
+// fields_view: ../lossy822/spec.rs
 pub open spec fn paras_view(ps: Seq<lossy::Paragraph>) -> Seq<Seq<FieldV>> { ps.map_values(|p: lossy::Paragraph| fields_view(p.fields@)) }
 
 /// the paragraph under construction: `cur0` followed by the field being read
